@@ -67,6 +67,13 @@ func propC16(c *Ctx) {
 		"ValidateGenesis is what the module's ValidateGenesis entry point runs, and it rejects zero ids, sequences below the start, malformed hashes/denoms",
 		"record freshness: no slice placed in an exported record is rooted in a variable captured from an enclosing activation, and captured accumulators are only appended to (records never share a backing array)")
 	defer c16Freshness(c)
+	defer c.Rule("C16.R7", func() {
+		for _, m := range []struct{ name, pkg string }{{"ophost", hostKeeper}, {"opchild", childKeeper}} {
+			errorDiscipline(c, "C16.R7", m.name+" ExportGenesis", c.Method(m.pkg, "Keeper", "ExportGenesis"), PO{Params: []string{"k", "ctx"}, Callbacks: true, Visits: 2})
+			errorDiscipline(c, "C16.R7", m.name+" InitGenesis", c.Method(m.pkg, "Keeper", "InitGenesis"), PO{Params: []string{"k", "ctx", "data"}, Callbacks: true, Visits: 2,
+				NoInline: []string{"ApplyAndReturnValidatorSetUpdates", ".Validate"}})
+		}
+	})
 	c.NotDecided = append(c.NotDecided, "behavioural equivalence of the re-imported chain (responses to later messages) and byte-identical re-export: these are execution statements; the table agreement above is their structural necessary condition")
 	c.Assumptions = append(c.Assumptions, "A1", "A3", "A10")
 	eff := c.W.BuildEffects()
@@ -496,6 +503,49 @@ func propC16(c *Ctx) {
 			for f, src := range wantSrc {
 				if v := set[f]; v != nil && !strings.Contains(v.Key(), src) {
 					o2.Fail(c.W.Pos(exp.Pos()), "exported "+f+" is "+trunc(v.Key(), 100)+", want "+src, nil)
+				}
+			}
+			// BridgeInfo: the stored value whenever one exists; nil only when Has == false
+			if v := set["BridgeInfo"]; v != nil {
+				var has *Term
+				for _, i := range collEvents(p, len(p.Events), "BridgeInfo", "Has") {
+					has = p.Events[i].Call
+				}
+				switch {
+				case has == nil:
+					o2.Fail(c.W.Pos(exp.Pos()), "BridgeInfo exported without probing the store (Has)", c.Dump(p, -1))
+				case p.factIs(len(p.Events), has.String()+".0", true):
+					// the field points at a local holding the loaded value
+					loaded := false
+					for _, i := range collEvents(p, len(p.Events), "BridgeInfo", "Get") {
+						if p.factIs(len(p.Events), "("+p.Events[i].Call.String()+".1 == nil)", true) {
+							loaded = true
+						}
+					}
+					if !(strings.Contains(v.Key(), "Get(k.BridgeInfo, ctx)") || (v.Op == "addr" && loaded)) {
+						o2.Fail(c.W.Pos(exp.Pos()), "a stored BridgeInfo is exported as "+trunc(v.Key(), 100), c.Dump(p, -1))
+					}
+				case p.factIs(len(p.Events), has.String()+".0", false):
+					if !v.IsNil() && !strings.Contains(v.Key(), "zero") {
+						o2.Fail(c.W.Pos(exp.Pos()), "BridgeInfo exported as "+trunc(v.Key(), 100)+" although none is stored", c.Dump(p, -1))
+					}
+				default:
+					o2.Fail(c.W.Pos(exp.Pos()), "BridgeInfo export does not depend on whether one is stored", c.Dump(p, -1))
+				}
+			}
+			// the two walked lists come from their own collections
+			for f, coll := range map[string]string{"LastValidatorPowers": "k.LastValidatorPowers", "DenomPairs": "k.DenomPairs"} {
+				for _, e := range listElems(set[f]) {
+					okSrc := false
+					e.Walk(func(x *Term) bool {
+						if x.Op == "opaque" && strings.HasPrefix(x.Name, "cbarg") && len(x.Args) == 1 && strings.Contains(x.Args[0].Key(), coll) {
+							okSrc = true
+						}
+						return !okSrc
+					})
+					if !okSrc {
+						o2.Fail(c.W.Pos(exp.Pos()), "exported "+f+" element "+trunc(e.Key(), 120)+" does not come from a walk over "+coll, nil)
+					}
 				}
 			}
 			if v := set["Exported"]; v != nil && !v.IsTrue() {
